@@ -10,10 +10,10 @@
    Established) is not required to be up to date until it is resumed / released. *)
 EXTENDS Speaker, SpeakerDom, TraceUtil
 
-VARIABLES l, stalled, held, obs, hasObs, pobs, pcur
-tvars == <<up, inr, loc, impPol, expPol, inrPol, expEff, l, stalled, held, obs, hasObs, pobs, pcur>>
+VARIABLES l, stalled, held, obs, hasObs, pobs, pcur, gone
+tvars == <<up, inr, loc, impPol, expPol, inrPol, expEff, l, stalled, held, obs, hasObs, pobs, pcur, gone>>
 
-TraceInit == PInit /\ l = 1 /\ stalled = {} /\ held = {} /\ obs = [none |-> TRUE] /\ hasObs = FALSE /\ pobs = [none |-> TRUE] /\ pcur = {}
+TraceInit == PInit /\ l = 1 /\ stalled = {} /\ held = {} /\ obs = [none |-> TRUE] /\ hasObs = FALSE /\ pobs = [none |-> TRUE] /\ pcur = {} /\ gone = {}
 
 IsEvent(e) == l <= TLen /\ Trace[l].ev = e /\ l' = l + 1
 Row == Trace[l]
@@ -29,7 +29,7 @@ TReset == /\ IsEvent("Reset")
           /\ impPol' = "acc" /\ expPol' = "acc"
           /\ inrPol' = [p \in Peers |-> [x \in Prefixes |-> "acc"]]
           /\ expEff' = [p \in Peers |-> "acc"]
-          /\ stalled' = {} /\ held' = {} /\ obs' = [none |-> TRUE] /\ hasObs' = FALSE /\ pobs' = [none |-> TRUE] /\ pcur' = {}
+          /\ stalled' = {} /\ held' = {} /\ obs' = [none |-> TRUE] /\ hasObs' = FALSE /\ pobs' = [none |-> TRUE] /\ pcur' = {} /\ gone' = {}
 
 TUp      == IsEvent("Up") /\ PUp(Row.p) /\ TakeObs /\ UNCHANGED <<stalled, held>>
 TUpHold  == IsEvent("UpHold") /\ PUp(Row.p) /\ held' = held \cup {Row.p} /\ TakeObs /\ UNCHANGED stalled
@@ -48,7 +48,8 @@ TSettle  == IsEvent("Settle") /\ stalled' = {} /\ held' = {} /\ TakeObs /\ UNCHA
 TDelPeer == /\ IsEvent("DelPeer")
             /\ (IF up[Row.p] THEN PDown(Row.p) ELSE UNCHANGED pvars)
             /\ stalled' = stalled \ {Row.p} /\ held' = held \ {Row.p} /\ TakeObs
-TAddPeer == IsEvent("AddPeer") /\ TakeObs /\ UNCHANGED <<up, inr, loc, polvars, stalled, held>>
+            /\ gone' = gone \cup {Row.p}
+TAddPeer == IsEvent("AddPeer") /\ TakeObs /\ gone' = gone \ {Row.p} /\ UNCHANGED <<up, inr, loc, polvars, stalled, held>>
 
 TargetOf(n) == IF n = "all" THEN Peers ELSE {n}
 TSetImp  == IsEvent("SetImp") /\ PSetImp(Row.pol) /\ TakeObs /\ UNCHANGED <<stalled, held>>
@@ -64,8 +65,10 @@ TOp     == IsEvent("Op") /\ TakeObs /\ UNCHANGED <<up, inr, loc, polvars, stalle
 THealth == IsEvent("Health") /\ obs' = [health |-> Row] /\ hasObs' = FALSE /\ pobs' = obs /\ pcur' = {}
            /\ UNCHANGED <<up, inr, loc, polvars, stalled, held>>
 
-TraceNext == TDelPeer \/ TAddPeer \/ TOp \/ THealth \/ TSetImp \/ TSetExp \/ TResetIn \/ TResetOut \/ TResetBoth \/ TRefresh \/ TReset \/ TUp \/ TUpHold \/ TRelease \/ TDown \/ TAnn \/ TWd \/ TApiAdd \/ TApiDel
-             \/ TStall \/ TResume \/ TTick \/ TSettle
+TraceNext == \/ TDelPeer \/ TAddPeer \/ TReset
+             \/ /\ UNCHANGED gone
+                /\ \/ TOp \/ THealth \/ TSetImp \/ TSetExp \/ TResetIn \/ TResetOut \/ TResetBoth \/ TRefresh \/ TUp \/ TUpHold
+                   \/ TRelease \/ TDown \/ TAnn \/ TWd \/ TApiAdd \/ TApiDel \/ TStall \/ TResume \/ TTick \/ TSettle
 TraceSpec == TraceInit /\ [][TraceNext]_tvars
 
 
@@ -143,10 +146,12 @@ C02_Lookups ==
      /\ SeqToSet(obs.lookup.shortx2)  = PresentPfx \cap {"x1", "x2"}
 
 (* C02: received / accepted counters agree with that content *)
+(* a removed neighbour is not listed at all (the harness then records -1), a configured one always is *)
 C02_Counters ==
   hasObs => \A p \in Peers :
-     /\ obs.ctr[p].received = Cardinality({x \in Prefixes : inr[p][x] # NoRoute})
-     /\ obs.ctr[p].accepted = Cardinality({x \in Prefixes : Usable(inr[p][x])})
+     IF p \in gone THEN obs.ctr[p].received = -1 /\ obs.ctr[p].accepted = -1
+     ELSE /\ obs.ctr[p].received = Cardinality({x \in Prefixes : inr[p][x] # NoRoute})
+          /\ obs.ctr[p].accepted = Cardinality({x \in Prefixes : Usable(inr[p][x])})
 
 (* C20: the run-time oracles of a concurrent execution, as recorded in its Health line *)
 HasHealth == "health" \in DOMAIN obs
